@@ -60,6 +60,12 @@ class EnumGenerator:
         if not re.match(r"^[A-Z_]", sanitized_member_name.upper()):
             sanitized_member_name = f"MEMBER_{sanitized_member_name}"
 
+        # Enum does not turn __NAME (private) or _NAME_ (reserved) into members: keep such names out of those forms
+        if sanitized_member_name.startswith("__") or (
+            len(sanitized_member_name) > 2 and sanitized_member_name[0] == "_" and sanitized_member_name[-1] == "_"
+        ):
+            sanitized_member_name = f"MEMBER{sanitized_member_name}"
+
         if not (sanitized_member_name and re.match(r"^[A-Z_][A-Z0-9_]*$", sanitized_member_name.upper())):
             raise ValueError(
                 f"Generated string enum member name '{sanitized_member_name}' "
